@@ -60,6 +60,22 @@ Holds(r) ==
                  /\ REq(r.out[4], RawMoment(d, 2)) /\ REq(r.out[5], RawMoment(d, 3)) /\ REq(r.out[6], CentralMoment(d, 2))
                  /\ REq(r.out[7], CentralMoment(d, 3)) /\ <<r.out[8], r.out[9]>> = UniqueCounts(d)
                  /\ REq(r.out[10], VarianceOf(d))
+    [] r.fn = "container" ->
+         \* len / iter / in / num_nodes / num_edges / network attribute access of the network object itself
+         LET S == FromJ(r.st) IN
+         IF ~Integrity(S) THEN TRUE
+         ELSE r.res = "ok" /\ r.out[1] = <<Len(S.nodes), Len(S.nodes), Len(S.edges)>> /\ r.out[2] = S.nodes
+              /\ \A k \in DOMAIN r.out[3] : r.out[3][k][2] = (r.out[3][k][1] \in NodeSet(S))
+              /\ r.out[4] = <<"liberr">>   \* a network attribute that was never set
+    [] r.fn = "custom_stat" ->
+         \* a user function registered with nodestat_func / edgestat_func behaves like a built-in statistic
+         LET S == FromJ(r.st)
+             val(n) == 2 * Degree(S, n) + 1 IN
+         IF ~Integrity(S) THEN TRUE
+         ELSE r.res = "ok" /\ r.out[1] = [k \in DOMAIN S.nodes |-> <<S.nodes[k], val(S.nodes[k])>>]
+              /\ r.out[2] = [k \in DOMAIN S.nodes |-> val(S.nodes[k])]
+              /\ r.out[3] = SelectSeq(S.nodes, LAMBDA n : val(n) >= r.k)
+              /\ r.out[4] = [k \in DOMAIN S.edges |-> 10 * SizeOf(S, S.edges[k])]
     [] OTHER -> FALSE
 
 Verdict(r) == IF r.anom # <<>> THEN <<"X01:anomaly." \o r.anom[1]>>
